@@ -478,6 +478,47 @@ class _Discard(Exception):
     pass
 
 
+class _LazyNativeDict(dict):
+    """generated twin of vc.lazy_dict: a key that was never looked at is decided (present
+    with a generated value / absent) the first time it is looked at"""
+
+    def __init__(self, vc, name, gen_value, default):
+        super().__init__()
+        self._vc, self._name, self._gen, self._default = vc, name, gen_value, default
+        self._decided = set()
+        self._n = 100
+
+    def _touch(self, key):
+        if dict.__contains__(self, key) or key in self._decided:
+            return
+        self._decided.add(key)
+        if self._vc.rng.random() < 0.5:
+            self._n += 1
+            dict.__setitem__(self, key, self._gen(self._vc, f"{self._name}[{self._n}]", key))
+
+    def __contains__(self, key):
+        self._touch(key)
+        return dict.__contains__(self, key)
+
+    def __getitem__(self, key):
+        self._touch(key)
+        if not dict.__contains__(self, key) and self._default is not None:
+            dict.__setitem__(self, key, self._default())
+        return dict.__getitem__(self, key)
+
+    def get(self, key, default=None):
+        self._touch(key)
+        return dict.get(self, key, default)
+
+    def pop(self, key, *default):
+        self._touch(key)
+        return dict.pop(self, key, *default)
+
+    def __setitem__(self, key, value):
+        self._decided.add(key)
+        dict.__setitem__(self, key, value)
+
+
 class GenVC(NativeVC):
     """harness API that draws inputs (boundary-biased random); records them as a model"""
 
@@ -647,14 +688,12 @@ class GenVC(NativeVC):
         return "Obj!val!%d" % self.rng.randrange(3)
 
     def lazy_dict(self, name, gen_value, gen_key=None, default=None, key_from_json=None):
-        import collections
-
-        d = collections.defaultdict(default) if default is not None else {}
+        d = _LazyNativeDict(self, name, gen_value, default)
         ents = []
         if gen_key is not None:
             for j in range(self.rng.choice([0, 1, 1, 2, 3])):
                 key = gen_key(self, f"{name}.it{j}")
-                if key in d:
+                if dict.__contains__(d, key):
                     continue
                 d[key] = gen_value(self, f"{name}[{j}]", key)
                 ents.append({"n": j, "key": "<generated>"})
